@@ -142,7 +142,12 @@ def check_config(ctx, F, tag, cfg):
     ctx.count("table-entries-checked" + tag, 65 * 3 + reach)
 
     # ---------------- R2 geometry
-    wb, wby, ish, om = F.const("bits::WORD_BITS"), F.const("bits::WORD_BYTES"), F.const("bits::INDEX_SHIFT"), F.const("bits::OFFSET_MASK")
+    def opt_const(name, default):
+        # (a private helper constant may be folded away by a clean-up: `o % WORD_BITS` for `o & OFFSET_MASK`; the relation then
+        # has nothing to constrain)
+        return F.const(name) if F.consts.get(name) else default
+    wb, wby = F.const("bits::WORD_BITS"), F.const("bits::WORD_BYTES")
+    ish, om = opt_const("bits::INDEX_SHIFT", 6), opt_const("bits::OFFSET_MASK", wb - 1)
     ok = wb == 64 and wby * 8 == wb and (1 << ish) == wb and om == wb - 1
     ctx.ob("C17.R2.geometry", "bits" + tag, where, ok, "constant-relations", "WORD_BITS=%d WORD_BYTES=%d INDEX_SHIFT=%d OFFSET_MASK=%d: 2^INDEX_SHIFT = WORD_BITS, OFFSET_MASK = WORD_BITS-1, WORD_BYTES*8 = WORD_BITS" % (wb, wby, ish, om))
     so = F.body("bits::split_offset")
